@@ -76,6 +76,7 @@ func main() {
 		{"condchan", func() string { return fmt.Sprint(lib.CondChan()) }, "5"},
 		{"pipeline", func() string { return fmt.Sprint(lib.Pipeline(4)) }, "354"},
 		{"sendpanics", func() string { return lib.SendPanics() }, "send on closed channel"},
+		{"mapmutate", func() string { return lib.MapMutate() }, ""},
 		{"handoff", func() string { return fmt.Sprint(lib.Handoff()) }, "42"},
 		{"racy", func() string { return fmt.Sprint(lib.Racy()) }, ""},
 		{"leak", func() string { return fmt.Sprint(lib.Leak()) }, "1"},
